@@ -166,6 +166,65 @@ def c12_ops(E):
     return c12_copy(E, edits="ops")
 
 
+def c12_after_history(E, k=1):
+    """the model is copied after a history of operations (also inside the context they were made in): the copy
+    equals the original, owns its objects, shares nothing, holds exactly its own flux-balance problem (C01's clause
+    'after every copy/pickle'), and an in-place mutation of one side does not reach the other"""
+    from vlib.ops import lp_equiv
+    env.for_path(E)
+    S = State()
+    m = base_model(E, sym_coef=False)
+    names = [n for n in OPS if n not in ("copy", "merge", "detached_edit")]
+    ctx = E.flag("history_inside_open_context")
+    if ctx:
+        m.__enter__()
+    for i in range(k):
+        try:
+            OPS[E.pick("pre_op%d" % i, names)][0](E, m, S)
+        except Exception:
+            return      # an operation failing outside its documented exceptions is C01/C02's to report (same histories)
+    if getattr(S, "undocumented", None) or any(l[2] == "ContainerAlreadyContains" or (l[0] == "add_reactions" and l[2] == "ValueError")
+                                               for l in S.log):
+        return      # model left broken by a listed C01 finding (duplicate-named variable, half-added reaction)
+    # the claim is about copies of consistent models: a history that already broke C01/C02 on the original
+    # (reported by those checks; listed findings there) is not continued
+    from vlib.vsym import Probe
+    pr = Probe(E)
+    try:
+        invariants(pr, m, S, "pre")
+        lp_equiv(pr, m, S, "pre")
+    except Exception:
+        return
+    if pr.failed:
+        return
+    how = E.pick("copy", ["Model.copy", "deepcopy", "pickle"])
+    E.note(copy=how, open_context=ctx, ops=[l[0] + ("!" + l[2] if l[2] else "") for l in S.log])
+    c = make_copy(how, m)
+    a, b = observe(m), observe(c)
+    a["contexts"] = b["contexts"] = 0
+    # reactions the user holds outside the model (e.g. the operand of `+=`) are not part of the model: a shared
+    # metabolite's back-reference to them is not expected in the copy
+    for o, mod in ((a, m), (b, c)):
+        for d in o.get("met", {}).values():
+            if isinstance(d, dict) and isinstance(d.get("reactions"), list):
+                d["reactions"] = [r for r in d["reactions"] if r in mod.reactions]
+    same(E, a, b, "copy=original", what=how)
+    invariants(E, c, S, "copy-objects-distinct-and-owned")
+    lp_equiv(E, c, S, "copy-lp=fba")
+    ra, rb = reachable(m), reachable(c)
+    shared = sorted(ra[i][0] for i in set(ra) & set(rb))
+    E.prove(not shared, "no-shared-mutable-object", shared=shared[:6], what=how, n=len(shared))
+    if ctx:
+        before_c = observe(c)
+        m.__exit__(None, None, None)
+        same(E, before_c, observe(c), "closing-the-original's-context-does-not-touch-the-copy", what=how)
+        lp_equiv(E, c, S, "copy-lp=fba")
+
+
+def c12_after_history2(E):
+    return c12_after_history(E, k=2)
+
+
 def c12_arithmetic(E):
     env.for_path(E)
     m = base_model(E)
@@ -218,6 +277,10 @@ HARNESSES = [
     H("c12_ops", c12_ops, quick=dict(max_paths=60000, time_budget=80), thorough=dict(max_paths=600000, time_budget=500),
       witness_every=100,
       bounds="as c12_copy but the edit is one operation of the full alphabet (%d ops x argument shapes)" % (len(OPS) - 2)),
+    H("c12_after_history", c12_after_history, tiers=("thorough",), thorough=dict(max_paths=300000, time_budget=200), witness_every=50,
+      bounds="one operation of the full alphabet (inside an open context or not), then Model.copy / deepcopy / pickle"),
+    H("c12_after_history2", c12_after_history2, tiers=("thorough",), thorough=dict(max_paths=2000000, time_budget=400), witness_every=300,
+      bounds="two operations of the full alphabet, then a copy (sampled)"),
     H("c12_arithmetic", c12_arithmetic, quick=dict(max_paths=5000, time_budget=30), thorough=dict(max_paths=50000, time_budget=60),
       witness_every=10, bounds="Reaction.copy, Metabolite.copy, +, -, *, +0, 0+, sum, copy.copy on model reactions with symbolic R1"),
 ]
